@@ -55,7 +55,7 @@ def batch_key(e):
     return ''
 
 
-def regroup(src, dst, chunk=150):
+def regroup(src, dst, chunk=450):
     """Rewrites a trace with reset lines placed by batch_key; returns {key: n}."""
     groups = {}
     with open(src) as f:
@@ -97,7 +97,7 @@ def case_ids(lines):
 def judge(ctx, traces, label):
     relax = relax_consts(ctx)
     before = len(ctx.violations)
-    vlib.judge_traces(ctx, 'OciErrorTrace', 'OciErrorTrace.cfg', traces, strict=relax, shard_lines=700, label=label + ' (pass A)')
+    vlib.judge_traces(ctx, 'OciErrorTrace', 'OciErrorTrace.cfg', traces, strict=relax, shard_lines=450, label=label + ' (pass A)')
     known = [k for k in vlib.load_known(ctx.pid) if k.get('relaxation') in RELAX]
     if not known:
         return
